@@ -117,6 +117,16 @@ def plan_c04(pid, rng, tier):
                 ev.append({"at": at + 5000 + rng.choice([100, 3000]), "kind": "depart", "node": nm})
         elif nm not in leavers:
             ev.append({"at": at, "kind": "update", "node": nm, "meta": "m-%s-%d" % (nm, k + 1), "timeout": 5000})
+    if pid % 3 == 0:
+        # the application is slow with user messages (longer than a probe round each) and gets bursts of them:
+        # that is the application's business, the member itself stays responsive
+        plan["slowMsg"] = 2 * f["pi"] + rng.choice([0, f["pi"]])
+        plan["noTcp"] = True
+        for k in range(rng.randint(2, 5)):
+            a, b = rng.sample(names, 2)
+            if a in leavers or b in leavers:
+                continue
+            ev.append({"at": t0 + rng.randrange(0, dur), "kind": "burst", "node": a, "to": b, "count": rng.randint(3, 8)})
     plan["events"] = ev
     plan["endAt"] = t0 + dur + 20000
     plan["settle"] = 0
@@ -136,7 +146,32 @@ def plan_c05(pid, rng, tier, maxn=None):
     ev.append({"at": t0, "kind": "faults", "delay": 1, "jitter": rng.choice([10, f["pt"]]), "loss": rng.choice([0.05, 0.2, 0.5]),
                "dup": rng.choice([0, 0.2]), "cut": rng.choice([0, 0.3])})
     down, left = set(), set()
-    for k in range(rng.randint(1, 8)):
+    directed = pid % 4
+    if directed == 0:
+        # announcements missed by everybody: datagrams are blacked out for a while (streams still work, so the
+        # TCP fallback keeps every probe succeeding and nobody is suspected) while a member updates its metadata;
+        # every gossip copy is lost and only push/pull can repair the views afterwards
+        owner = rng.choice(names)
+        at = t0 + rng.randrange(0, 3000)
+        plan["noTcp"] = False
+        ev[-1].update(loss=0.05, jitter=10, cut=0)      # few false accusations: a refutation would be a new announcement
+        base = dict(ev[-1])
+        ev.append(dict(base, at=at, loss=1.0, cut=0))
+        ev.append({"at": at + 20, "kind": "update", "node": owner, "meta": "m-%s-late" % owner, "timeout": 3000})
+        ev.append(dict(base, at=at + 5 * f["pi"]))
+        left.add(owner)      # (kept out of the random crashes, leaves and updates below)
+    elif directed == 2 and n >= 3:
+        # a member leaves, its process goes away, it is forgotten (reaped), and it comes back under the same name and address
+        lv = rng.choice(names[1:])
+        at = t0 + rng.randrange(0, 3000)
+        away = f["gd"] + (2 * n + 2) * f["pi"] + rng.choice([500, 5000])
+        ev.append({"at": at, "kind": "leave", "node": lv, "timeout": 2000})
+        ev.append({"at": at + 2500, "kind": "depart", "node": lv})
+        ev.append({"at": at + 2500 + away, "kind": "restart", "node": lv})
+        ev.append({"at": at + 2500 + away + 150, "kind": "join", "node": lv, "to": rng.choice([x for x in names if x != lv])})
+        dur = max(dur, 3000 + 2500 + away + 2000)
+        left.add(lv)
+    for k in range(rng.randint(1, 8) if directed not in (0, 2) else rng.randint(0, 2)):
         at = t0 + rng.randrange(0, dur)
         kind = rng.choice(["partition", "partition", "crash", "crash", "leave", "update"])
         nm = rng.choice(names)
@@ -159,7 +194,7 @@ def plan_c05(pid, rng, tier, maxn=None):
                 continue
             left.add(nm)
             ev.append({"at": at, "kind": "leave", "node": nm, "timeout": 3000})
-        else:
+        elif nm not in left:
             ev.append({"at": at, "kind": "update", "node": nm, "meta": "m-%s-%d" % (nm, k + 1), "timeout": 3000})
     t_stop = t0 + dur + 45000
     ev.append({"at": t_stop - 10, "kind": "heal"})
